@@ -82,8 +82,11 @@ def main(cases, oracle, bound, budget_s=(30, 300)):
     if a.inputs:
         extra = json.load(open(a.inputs))
     import itertools
+    keep = []            # sample of inputs evaluated a second time at the end: same input, different call history
     for inp in itertools.chain(extra, cases(a.tier, rng)):
         n += 1
+        if len(keep) < 150 or n % 17 == 0:
+            keep.append(inp)
         r = guarded(oracle, inp)
         if r:
             cls = r.split(':')[0][:60]
@@ -94,5 +97,23 @@ def main(cases, oracle, bound, budget_s=(30, 300)):
                 break
         if time.process_time() - c0 > budget or time.time() - t0 > 10 * budget:
             break
-    print(json.dumps({'evaluations': n, 'failures': fails, 'bound': bound, 'wall_s': round(time.time() - t0, 2), 'cpu_s': round(time.process_time() - c0, 2),
-                      'label': 'bounded', 'complete_sweep': time.process_time() - c0 <= budget and time.time() - t0 <= 10 * budget}))
+    complete = time.process_time() - c0 <= budget and time.time() - t0 <= 10 * budget
+    # second pass: a result must not depend on what earlier calls left behind (caches, shared defaults, class-level state)
+    c1 = time.process_time()
+    n2 = 0
+    if len(fails) < 3:
+        for inp in keep[::-1][:600]:
+            n2 += 1
+            r = guarded(oracle, inp)
+            if r:
+                cls = 'history: ' + r.split(':')[0][:50]
+                if cls not in seen:
+                    seen.add(cls)
+                    fails.append({'class': cls, 'input': inp, 'detail': 'on second evaluation, after other inputs: ' + r[:560]})
+                if len(fails) >= 3:
+                    break
+            if time.process_time() - c1 > max(5, budget / 3):
+                break
+    n += n2
+    print(json.dumps({'evaluations': n, 'second_pass': n2, 'failures': fails, 'bound': bound, 'wall_s': round(time.time() - t0, 2), 'cpu_s': round(time.process_time() - c0, 2),
+                      'label': 'bounded', 'complete_sweep': complete}))
